@@ -48,6 +48,20 @@ StdOk(n, callee) ==
   ELSE /\ (n.k = "call" /\ n.f.k = "std") => (n.f.name \in DOMAIN StdArity /\ Len(n.args) = StdArity[n.f.name])
        /\ LET ks == SndKids(n) IN \A j \in 1..Len(ks) : StdOk(ks[j], n.k = "call" /\ j = 1)
 
+\* SyltSem binds `self` for ALL field initialisers of a blob literal (to nil until the blob exists); Sylt binds it in the
+\* function-valued fields only.  The two readings differ exactly when a plain field initialiser of a literal that sits
+\* inside a method of an enclosing literal mentions `self` (Sylt: the enclosing blob): such programs are outside the
+\* reference run's domain.  (Outside a method Sylt rejects the mention; if a compiler accepts it, nil is what it reads.)
+RECURSIVE MentionsSelf(_)
+MentionsSelf(n) == n.k = "self" \/ LET ks == SndKids(n) IN \E j \in 1..Len(ks) : MentionsSelf(ks[j])
+RECURSIVE SelfOk(_, _)
+SelfOk(n, inMethod) ==
+  IF n.k = "blob"
+  THEN \A i \in 1..Len(n.fields) :
+          IF n.fields[i].e.k = "fn" THEN SelfOk(n.fields[i].e, TRUE)
+          ELSE (inMethod => ~MentionsSelf(n.fields[i].e)) /\ SelfOk(n.fields[i].e, inMethod)
+  ELSE LET ks == SndKids(n) IN \A j \in 1..Len(ks) : SelfOk(ks[j], inMethod)
+
 StartIdOf(tops) == LET c == {t \in 1..Len(tops) : tops[t].k = "def" /\ tops[t].n = "start"} IN
                    IF c = {} THEN 0 - 5 ELSE tops[CHOOSE t \in c : TRUE].b
 
@@ -72,6 +86,7 @@ PrintKinds(out) == [i \in 1..Len(out) |-> IF out[i].v.k = "nil" THEN "nil" ELSE 
 
 SpecRun(tops) ==
   IF ~StdOk(SndSeqN(tops), FALSE) THEN [status |-> "drop:outside-builtin-domain", prints |-> <<>>]
+  ELSE IF ~SelfOk(SndSeqN(tops), FALSE) THEN [status |-> "drop:self-of-enclosing-blob-in-plain-field", prints |-> <<>>]
   ELSE LET defs == SndSelectIdx(tops, LAMBDA t : t.k = "def")
            r == InitAll(tops, defs, NewState(Fuel))
            fin == IF r.sig = "halt" THEN r.s
